@@ -5,5 +5,7 @@ CONSTANTS
   MaxDelay = 2
   Horizon = 40
   InheritEarliestDue = TRUE
+  WidenIndividual = TRUE
+  MergeOnStart = TRUE
 INVARIANTS Covered Deadline TwoCycles
 CHECK_DEADLOCK FALSE
